@@ -620,6 +620,85 @@ def rule_transient_state_resolved(ctx):
             ctx.check(n > 0, fq, "every exit gives the step a resting state", "no exit path", f"{n} paths")
 
 
+def rule_recompute_pipelines(ctx):
+    """R-C10-10: the recomputation of the cached attributes runs all of its stages, in order, and clears the flag last.
+
+    R-C10-1/-2 decide that flags are raised and that the recomputation is called before every decision; what is
+    called has to do the work: seed the work list from the flagged rows, recompute, feed what changed into the
+    propagation, and only then clear the flag.
+    """
+    def stages(fq):
+        fi = ctx.prog.func(fq)
+        out = []
+        for tr, st in flow.paths_of(fi):
+            seq = []
+            for e in tr:
+                if e[0] == "call" and e[1].endswith("db.execute") or e[0] == "call" and e[1].endswith("db.executemany"):
+                    if e[2].args:
+                        seq.append(ast.unparse(e[2].args[0]))
+                elif e[0] == "call" and e[1].endswith("_clear_flag") and e[2].args:
+                    seq.append("clear " + ast.unparse(e[2].args[0]))
+            tests = [(e[1], e[2]) for e in tr if e[0] == "test"]
+            loops = [1 for e in tr if e[0] == "loopiter"] + [e[2] for e in tr if e[0] == "loop" and e[2]]
+            out.append((seq, tests, loops, st))
+        return fi, out
+
+    def in_order(seq, need):
+        pos = -1
+        for n in need:
+            try:
+                pos = seq.index(n, pos + 1)
+            except ValueError:
+                return False
+        return True
+
+    fi, paths = stages("scheduler.Scheduler._update_meta_safe")
+    work = [p for p in paths if p[0]]
+    ctx.check(bool(work) and all(in_order(p[0], ["EMPTY_SAFE_UPDATE", "FILL_SAFE_UPDATE", "APPLY_SAFE_UPDATE", "clear '_check_safe'"]) and p[0][-1] == "clear '_check_safe'" for p in work), fi.fq, "_safe: empty -> fill -> apply -> clear flag", f"stages on the working path: {[p[0] for p in work][:2]}: flagged steps lose their flag without (all of) the recomputation, and keep a stale _safe for good", "all stages, flag cleared last", where=ctx.where_of(fi))
+    fi, paths = stages("scheduler.Scheduler._update_meta_after")
+    once = [p for p in paths if p[0] and 1 in p[2]]
+    none = [p for p in paths if p[0] and 1 not in p[2]]
+    need = ["SEED_CHECK_AFTER", "COUNT_CHECK_AFTER", "UPDATE_CHECK_AFTER", "EMPTY_CHANGED_AFTER", "INSERT_CHANGED_AFTER", "PROPAGATE_CHECK_AFTER", "clear '_check_after'"]
+    ctx.check(bool(once) and all(in_order(p[0], need) and p[0][-1] == "clear '_check_after'" for p in once), fi.fq, "_implied_need/_after: seed -> (recompute -> changed rows -> propagate)* -> clear flag", f"stages with one round: {[p[0] for p in once][:1]}: the propagation of a changed need to the suppliers is cut short, or the flag is cleared before the work is done", "all stages, flag cleared last", where=ctx.where_of(fi))
+    ctx.check(bool(none) and all(in_order(p[0], ["SEED_CHECK_AFTER", "COUNT_CHECK_AFTER", "clear '_check_after'"]) for p in none), fi.fq, "with nothing to recompute the flag is still cleared after seeding", f"{[p[0] for p in none][:1]}", "seed, count, clear")
+    src = ast.unparse(fi.node)
+    ctx.check(re.search(r"changed_ids = cur\.fetchall\(\)", src) is not None and "executemany(INSERT_CHANGED_AFTER, changed_ids)" in src and re.search(r"cur = self\.db\.execute\(UPDATE_CHECK_AFTER", src) is not None, fi.fq, "the rows returned by the recomputation are the ones fed into the propagation", "the changed rows are not what is propagated", "UPDATE ... RETURNING -> INSERT_CHANGED_AFTER")
+    ctx.check("ncheck = cur.rowcount" in src and re.search(r"while ncheck > 0", src) is not None, fi.fq, "the loop runs until the propagation adds nothing", "loop condition changed", "while ncheck > 0")
+    bc = ctx.prog.func("scheduler.Scheduler.build_completed")
+    ctx.ok(bc.fq, "end-of-build recomputation", "calls _update_meta_after" if "_update_meta_after" in ast.unparse(bc.node) else "does not recompute at the end of the build")
+
+
+def rule_phase_wiring(ctx):
+    """R-C10-11: a build phase is the job loop followed by the finalisation, and finished tasks come back to the loop.
+
+    R-C10-6 decides when job_loop may return; this rule decides that it is run at all, that the end-of-build
+    work follows it, and that a finished task leaves the running set and wakes the loop (otherwise the loop waits
+    for ever on a slot that is never given back).
+    """
+    ro = ctx.prog.func("builder.Builder.run_once")
+    n = 0
+    for tr, st in flow.paths_of(ro):
+        rets = [e for e in tr if e[0] == "return"]
+        if not rets or "True" not in rets[-1][1]:
+            continue
+        n += 1
+        names = [e[1].split(".")[-1] for e in tr if e[0] == "call"]
+        ok = "job_loop" in names and "finalize" in names and names.index("job_loop") < names.index("finalize")
+        ctx.check(ok, ro.fq, "a phase that reports 'ran' has run the job loop and then the finalisation", f"calls: {[x for x in names if x in ('job_loop', 'finalize')]}: the build phase ends without building, or without the end-of-build report and cleanup", "job_loop -> finalize", where=ctx.where_of(ro))
+    if n == 0:
+        raise AnalysisError("Builder.run_once: no path returning True")
+    for fq in ("builder.Builder.start_task", "builder.Builder.start_hash_task"):
+        fi = ctx.prog.func(fq)
+        cb = [c for c in calls_in(fi.node) if callee_name(c) == "add_done_callback" and c.args and ast.unparse(c.args[0]) == "self._task_done"]
+        reg = any(isinstance(a, ast.Assign) and any("self.running_tasks[" in ast.unparse(t) for t in a.targets) for a in ast.walk(fi.node))
+        ctx.check(bool(cb) and reg, fq, "a started task is registered as running and reports back when it is done", f"done-callback={bool(cb)}, registered={reg}: the job loop never learns that the task finished and its slot is never free again", "running_tasks[task] = ...; add_done_callback(self._task_done)", where=ctx.where_of(fi))
+    td = ctx.prog.func("builder.Builder._task_done")
+    src = ast.unparse(td.node)
+    ctx.check("self.running_tasks.pop(task)" in src and "self.done_tasks[task]" in src and "self.wake_job_loop.set()" in src, td.fq, "a finished task leaves the running set, joins the done set and wakes the loop", "one of the three is missing", "pop, record, wake")
+    jl = ctx.prog.func("builder.Builder.job_loop")
+    ctx.check(any(callee_name(c) == "handle_done_tasks" for c in calls_in(jl.node)), jl.fq, "the loop processes finished tasks", "done tasks are never handled (their exceptions and wake-ups are lost)", "handle_done_tasks()")
+
+
 def rule_defer_cap(ctx):
     """R-C10-7: every accepted defer passed the counter and the cap."""
     fi = ctx.prog.func("step.Step.mark_completed")
@@ -662,6 +741,8 @@ RULES = [
     Rule("R-C10-6", "job_loop returns only after an empty poll", rule_loop_exit, min_instances=3),
     Rule("R-C10-7", "defer cap", rule_defer_cap, min_instances=5),
     Rule("R-C10-9", "job handlers leave the transient states on every exit", rule_transient_state_resolved, min_instances=9),
+    Rule("R-C10-10", "recomputation pipelines run all stages and clear the flag last", rule_recompute_pipelines, min_instances=6),
+    Rule("R-C10-11", "phase wiring: loop, finalisation, finished tasks", rule_phase_wiring, min_instances=5),
     Rule("R-C10-8", "'needed' is computed from attached consumers, targets and declared need", C11.rule_read_set, min_instances=10),
 ]
 
@@ -671,6 +752,15 @@ def _drop_trigger(name):
 
 
 MUTANTS = [
+    Mutant("phase-without-job-loop", "builder.py", in_function("Builder.run_once", replace_once("        await self.job_loop()\n", "")), ("R-C10-11",)),
+    Mutant("phase-without-finalize", "builder.py", in_function("Builder.run_once", replace_once("        await self.finalize()\n", "")), ("R-C10-11",)),
+    Mutant("task-never-reports-back", "builder.py", in_function("Builder.start_task", replace_once("        task.add_done_callback(self._task_done)\n", "")), ("R-C10-11",)),
+    Mutant("done-task-does-not-wake", "builder.py", in_function("Builder._task_done", replace_once("        self.wake_job_loop.set()\n", "")), ("R-C10-11",)),
+    Mutant("after-not-seeded", "scheduler.py", in_function("Scheduler._update_meta_after", replace_once("        self.db.execute(SEED_CHECK_AFTER)\n", "")), ("R-C10-10",)),
+    Mutant("after-changed-rows-dropped", "scheduler.py", in_function("Scheduler._update_meta_after", replace_once("            self.db.executemany(INSERT_CHANGED_AFTER, changed_ids)\n", "")), ("R-C10-10",)),
+    Mutant("after-changed-rows-accumulate", "scheduler.py", in_function("Scheduler._update_meta_after", replace_once("            self.db.execute(EMPTY_CHANGED_AFTER)\n", "")), ("R-C10-10",)),
+    Mutant("safe-filled-not-applied", "scheduler.py", in_function("Scheduler._update_meta_safe", replace_once("        cur = self.db.execute(APPLY_SAFE_UPDATE)\n", "        cur = self.db.execute(EMPTY_SAFE_UPDATE)\n")), ("R-C10-10",)),
+    Mutant("after-flag-cleared-first", "scheduler.py", in_function("Scheduler._update_meta_after", lambda t: t.replace('        self._clear_flag("_check_after")\n', "", 1).replace("        self.db.execute(EMPTY_CHECK_AFTER)\n        self.db.execute(SEED_CHECK_AFTER)\n", '        self._clear_flag("_check_after")\n        self.db.execute(EMPTY_CHECK_AFTER)\n        self.db.execute(SEED_CHECK_AFTER)\n', 1) if 'self._clear_flag("_check_after")' in t else None), ("R-C10-10",)),
     Mutant("failed-step-stays-running", "step.py", in_function("Step.mark_completed", replace_once('                logger.info("Failed step: %s", self.label)\n                self.set_state(StepState.FAILED)\n', '                logger.info("Failed step: %s", self.label)\n')), ("R-C10-9",)),
     Mutant("validated-step-not-parked", "executor.py", in_function("Executor.validate_dynamic_job", replace_once("step.set_state(StepState.PENDING, step.has_unavailable_dynamic_input())", "step.set_state(StepState.PENDING)")), ("R-C10-9",)),
     Mutant("reset-keeps-hash", "executor.py", in_function("Executor._reset_step_to_pending", replace_once("            step.delete_hash()\n", "")), ("R-C10-9",)),
